@@ -249,14 +249,34 @@ func c18Multi(c *Chooser, env *Env) *Outcome {
 	var graphs []*c18Graph
 	var models []*c18Model
 	w := &World{Disk: disk, Cwd: "/w/r", CPUs: []int{2, 1, 4}[c.Int("world.cpus", 3)], API: APIFiles, Note: "C18 several needs graphs in one run"}
+	// the files are named on the command line, or found by walking .github/workflows of the repository
+	viaWalk := c.Weighted("world.viawalk", 1, 4)
+	var names []string
 	for i := 0; i < n; i++ {
 		g := genC18(c)
 		src := g.yaml(c)
 		p := fmt.Sprintf(".github/workflows/g%d.yml", i)
-		disk.Put("/w/r/"+p, []byte(src))
-		w.Files = append(w.Files, p)
+		if c.Weighted("world.symlink", 1, 5) {
+			// a workflow kept elsewhere and linked into the workflows directory
+			t := fmt.Sprintf("/shared/wf/g%d.yml", i)
+			disk.Put(t, []byte(src))
+			disk.Symlink("/w/r/"+p, t)
+		} else {
+			disk.Put("/w/r/"+p, []byte(src))
+		}
+		names = append(names, p)
 		graphs = append(graphs, g)
 		models = append(models, g.model())
+	}
+	if viaWalk {
+		w.API, w.Files = APIRepo, []string{""}
+	} else {
+		w.Files = names
+	}
+	if c.Weighted("world.loglevel", 1, 6) {
+		// (Verbose wins over Debug when both are set)
+		w.Opts.Debug = c.Bool("world.debug")
+		w.Opts.Verbose = !w.Opts.Debug
 	}
 	o.World = w
 	res := RunLint(w, c, RunOpts{KeepTrace: env.KeepTrace})
@@ -278,12 +298,12 @@ func c18Multi(c *Chooser, env *Env) *Outcome {
 	for i := range graphs {
 		var mine []ErrRec
 		for _, e := range res.Errs {
-			if e.File == w.Files[i] {
+			if e.File == names[i] {
 				mine = append(mine, e)
 			}
 		}
 		if v := c18Check(graphs[i], models[i], mine); v != nil {
-			v.Message = fmt.Sprintf("file %s of a %d-file run: %s", w.Files[i], n, v.Message)
+			v.Message = fmt.Sprintf("file %s of a %d-file run: %s", names[i], n, v.Message)
 			o.V = v
 			return o
 		}
@@ -302,6 +322,12 @@ func (c18) Eval(c *Chooser, env *Env) *Outcome {
 	disk.Put("/w/r/.github/workflows/t.yml", []byte(src))
 	disk.MkdirAll("/w/r/.git")
 	w := &World{Disk: disk, Cwd: "/w/r", CPUs: 2, API: APIFile, Files: []string{".github/workflows/t.yml"}, Note: "C18 needs graph"}
+	if c.Weighted("world.loglevel", 1, 6) {
+		// the verdict must not depend on how much the linter logs
+		// (Verbose wins over Debug when both are set)
+		w.Opts.Debug = c.Bool("world.debug")
+		w.Opts.Verbose = !w.Opts.Debug
+	}
 	res := RunLint(w, c, RunOpts{KeepTrace: env.KeepTrace})
 	o := &Outcome{World: w}
 	o.addRun(res.K)
